@@ -102,6 +102,9 @@ def pop_objects(ctx, chi, rng, i, subs=None, n_ids=None, ops=True):
                     fresh.set_n_ids(n_ids)
                     if any(x == 'set_dim_names' for x in seq):
                         fresh.set_dim_names(['d%d' % k for k in range(fresh.n_dim())])
+                    if any(x == 'set_population_parameters' for x in seq):
+                        # (the twin must carry the same selection: names of covariate coefficients follow it)
+                        fresh.set_population_parameters([[0, 0]])
                     ctx.spec('C17.population.names_after_reset', pm.get_parameter_names() == fresh.get_parameter_names(),
                              dict(inp, sequence=list(seq)),
                              {'after_reset': pm.get_parameter_names(), 'fresh': fresh.get_parameter_names()})
